@@ -272,6 +272,10 @@ def run_correspondence(mod, cases, obss, shard=300):
                 errors.append((str(p), out[-2000:]))
             else:
                 mism.extend(idxs[j] for j in lst)
+    if not errors:
+        # the generated case files are large in the thorough tier (gigabytes over all properties): kept only when one
+        # of them could not be evaluated (the replay then names it)
+        shutil.rmtree(d, ignore_errors=True)
     return sorted(mism), errors
 
 
